@@ -426,9 +426,20 @@ func (g *Gen) DocFrom(forUpdate bool, pInc float64, cur map[string]any) GenDoc {
 	// a narrow update names a single top-level field (the others must stay as
 	// they are, in the document and in every index)
 	only := ""
-	if forUpdate && !g.ForceDelete && len(flds) > 0 && g.R.Intn(4) == 0 {
+	if forUpdate && !g.ForceDelete && len(flds) > 0 && g.R.Intn(3) == 0 {
 		cands := append(append([]string{}, flds...), "x")
 		only = cands[g.R.Intn(len(cands))]
+		// (half of them name the parent of nested indexed paths, if the schema has one: no key of the request is
+		// itself a schema key then)
+		var parents []string
+		for _, f := range flds {
+			if strings.Contains(byFld[f][0].Name, ".") {
+				parents = append(parents, f)
+			}
+		}
+		if len(parents) > 0 && g.R.Intn(2) == 0 {
+			only = parents[g.R.Intn(len(parents))]
+		}
 	}
 	for _, f := range flds {
 		if only != "" && f != only {
